@@ -15,6 +15,7 @@ func genH(t *rapid.T, onceBias int) H {
 		Async:  rapid.IntRange(0, 2).Draw(t, "async") == 0,
 		Seq:    rapid.IntRange(0, 3).Draw(t, "seq") == 0,
 		Filter: rapid.SampledFrom(filters).Draw(t, "filter"),
+		Panics: rapid.IntRange(0, 4).Draw(t, "panics") == 0,
 	}
 }
 
